@@ -72,7 +72,10 @@ def correspond(ctx):
                                             % (fam, list(vals), f["bad"], f["panic"], f["nonmono"], f["first"])})
         if int(f["nonfinite"]):
             k = f["first"].split(":")[0]
-            cls = fam + "-draw-one" if (fam in ("frechet", "gumbel") and int(f["nonfinite"]) == 1 and k == "ffffff") else "sweep-nonfinite"
+            val = (f["first"].split(":") + [""])[1]
+            # the known findings F4 / F11 are an INFINITE result at the single draw 1.0; a NaN there (or anything elsewhere) is new
+            cls = fam + "-draw-one" if (fam in ("frechet", "gumbel") and int(f["nonfinite"]) == 1 and k == "ffffff"
+                                        and val in ("x7f800000", "xff800000")) else "sweep-nonfinite"
             oracle_failures.append({"property": PID, "class": cls, "family": fam, "harness_line": line,
                                     "what": "%s<f32>%s: %s of the 2^24 draws give a non-finite sample (first: %s)" % (fam, list(vals), f["nonfinite"], f["first"])})
     # 1b. the property's inequality itself, decided numerically on the real code: exact Kolmogorov distance of the induced law
